@@ -26,7 +26,7 @@ Definition ret_exempt (f : string) : bool := inb f known_cache_returners || inb 
 
 Definition public_ok (fp : string * prog) : bool :=
   (args_exempt (fst fp) || safe_args_except (allowed_args unproved_args (fst fp)) (snd fp))
-  && (ret_exempt (fst fp) || safe_ret (snd fp)).
+  && (ret_exempt (fst fp) || safe_ret_except (allowed_args returned_args_allowed (fst fp)) (snd fp)).
 
 Lemma safe_all_public : forallb public_ok public_functions = true.
 Proof. vm_compute. reflexivity. Qed.
@@ -44,8 +44,10 @@ Definition rejected_ret (f : string) : bool :=
 
 Lemma exceptions_refuted :
   forallb rejected_args (known_arg_writers ++ map fst unproved_args) = true /\
-  forallb rejected_ret (known_cache_returners ++ cache_accessors) = true.
-Proof. split; vm_compute; reflexivity. Qed.
+  forallb rejected_ret (known_cache_returners ++ cache_accessors) = true /\
+  forallb (fun f => match lookup public_functions f with Some p => negb (safe_ret_except [] p) | None => false end)
+          (map fst returned_args_allowed) = true.
+Proof. repeat split; vm_compute; reflexivity. Qed.
 
 (* public methods of the public classes (and of the result classes they hand out), translated
    with `self` as parameter 0 *)
@@ -90,12 +92,14 @@ Qed.
 
 Theorem public_results_not_cached : forall f p, In (f, p) public_functions -> ret_exempt f = false ->
   forall st st', init_ok p st -> exec (body p) st st' ->
-  forall b, In b (rets st') -> cached st' b = false.
+  forall b, In b (rets st') ->
+  cached st' b = false /\
+  (forall i, org st' b = LArg i -> existsb (Nat.eqb i) (allowed_args returned_args_allowed f) = true).
 Proof.
   intros f p Hin Hex st st' Hi He b Hb.
   pose proof (public_ok_in f p Hin) as H. unfold public_ok in H. cbn [fst snd] in H.
   apply andb_prop in H. destruct H as [_ H]. rewrite Hex in H. cbn [orb] in H.
-  exact (safe_ret_sound p H st st' Hi He b Hb).
+  exact (safe_ret_except_sound _ p H st st' Hi He b Hb).
 Qed.
 
 (* ---- the semantics does see in-place writes and cache aliases (non-vacuity) ---- *)
